@@ -58,3 +58,19 @@ func init() {
 		}})
 	}
 }
+
+func init() {
+	if os.Getenv("DMVERIF_ERRALL") != "" {
+		register(&propSpec{id: "DBG", run: func(c *Ctx) {
+			n := 0
+			for _, pk := range []string{"pkg/core", "pkg/cafs", "pkg/fuse", "pkg/wal", "pkg/storage/localfs", "pkg/model"} {
+				for _, f := range c.P.FuncsIn(pk) {
+					if f.Decl.Body != nil {
+						n += checkErrDiscipline(c, "errall", f, func(id string) bool { return true }, nil)
+					}
+				}
+			}
+			fmt.Println("sites:", n)
+		}})
+	}
+}
